@@ -9,6 +9,38 @@ ROOT = os.path.dirname(os.path.dirname(os.path.abspath(__file__)))
 ALL = [f'C{i:02d}' for i in range(1, 21)]
 
 CHECKS = {
+    'C02': dict(
+        level='exploration',
+        technique='runtime monitoring with an independent second '
+                  'implementation: reference SSH peer (own kex/key '
+                  'derivation/codec) in both roles, passive wire-tap decoder, '
+                  'real OpenSSH client, segmentation differential',
+        text='Every packet asyncssh emits in the explored sessions is '
+             'decoded by an independent RFC 4253 implementation that checks '
+             'length, padding >= 4, alignment and MAC/tag over its own '
+             'sequence counter with keys it derived itself; asyncssh accepts '
+             'what the reference builds; payloads are compared end to end '
+             'under 6 segmentations; the OpenSSH 9.2 client covers the '
+             'shared algorithm matrix incl. UMAC.',
+        note='trusted: vf/refssh.py + vf/refpeer.py (no asyncssh imports), '
+             'cryptography/OpenSSL primitives, OpenSSH 9.2 client',
+        design='3/C02'),
+    'C11': dict(
+        level='exploration',
+        technique='runtime monitoring: wire tap with per-exchange key '
+                  'derivation + C07 stream oracle across forced rekeys '
+                  '(bytes, virtual-time seconds, both sides), scripted '
+                  'reference peer rekeys, OpenSSH RekeyLimit runs',
+        text='Across thousands of observed re-exchanges (either side, both '
+             'at once, by time) no channel byte is lost/duplicated/'
+             'reordered; between KEXINIT and NEWKEYS only kex/transport '
+             'messages appear on the wire; post-NEWKEYS traffic decodes only '
+             'with keys derived from the new (K,H) and the original session '
+             'id; every exchange has a distinct (K,H).',
+        note='trusted: refssh codec; (K,H) capture from send_newkeys '
+             'arguments for the passive tap (the active reference peer needs '
+             'no capture)',
+        design='3/C11'),
     'C07': dict(
         level='exploration',
         technique='runtime monitoring: self-identifying payload streams + '
